@@ -1,10 +1,10 @@
 package rules
 
 import (
-	"os"
 	"fmt"
 	"go/token"
 	"go/types"
+	"os"
 	"sort"
 	"strings"
 
@@ -640,7 +640,6 @@ func blockReachesAvoiding(from, to, avoid *ssa.BasicBlock) bool {
 	return false
 }
 
-
 // sameFieldLoad: two loads of the same field of the same (SSA, hence immutable) base pointer.
 func sameFieldLoad(a, b ssa.Value) bool {
 	la, ok1 := a.(*ssa.UnOp)
@@ -652,7 +651,6 @@ func sameFieldLoad(a, b ssa.Value) bool {
 	fb, ok2 := lb.X.(*ssa.FieldAddr)
 	return ok1 && ok2 && fa.X == fb.X && fa.Field == fb.Field
 }
-
 
 // derefsParamSomewhere: the function loads or stores through its i-th parameter.
 func derefsParamSomewhere(g *ssa.Function, i int) bool {
